@@ -287,6 +287,10 @@ def unit(u, res):
             if o.kind == 'panic':
                 continue      # panics are C01's subject
             r = o.value
+            if pr.rng.random() < 0.01:
+                fe_, m_ = pr.feasible(o.pc)
+                if fe_:
+                    validate_tree_path(C, res, S, o, m_, random.Random(1), 2.0)
             if bal:
                 # balanced input is never reported as unbalanced
                 en = error_name(C.meta, r.fields[0]) if r.variant == 1 else None
